@@ -1,3 +1,5 @@
+//go:build go1.25
+
 package props
 
 // exclstep — bigbuff.Exclusive in a synctest bubble (C09: never two work functions of one key at once,
